@@ -22,6 +22,7 @@ CTC_SETS = [
     [('OR', ('NOT', 'F1'), 'F0'), ('AND', 'F0', ('NOT', 'F1'))],
     [('NOT', ('AND', 'F0', ('NOT', 'F1'))), ('AND', ('IMPLIES', 'F0', 'F1'), ('EXCLUDES', 'F1', 'F0'))],
     [('REQUIRES', 'F1', 'F0'), ('OR', ('NOT', 'F0'), ('NOT', 'F1')), ('OR', 'F0', 'F1')],
+    [('IMPLIES', 'F0', 'F1'), ('IMPLIES', 'F0', 'F1'), ('EXCLUDES', 'F1', 'F0'), ('OR', 'F0', 'F1'), ('EXCLUDES', 'F1', 'F0'), ('IMPLIES', 'F0', 'F1')],      # the same constraint stated several times: each one counts
 ]
 
 # metric name -> (denominator listing name | None, precision)
@@ -452,9 +453,11 @@ def batches(tier, seed):
     b = [('batch_native', [N, lo, lo + step, seed + lo]) for lo in range(0, total, step)] + [('batch_filter_pairs', [seed])]
     if tier == 'quick':
         b += [('batch_larger', ['random', seed * 3 + i, 40, 6, 16, 0]) for i in range(2)]
+        b += [('batch_larger', ['case', seed, 6, 0, 4, 0])]
         b += [('batch_larger', ['corpus', seed, 48, 0, 0, 150000, i, 2]) for i in range(2)]
     else:
         b += [('batch_larger', ['random', seed * 3 + i, 250, 6, 40, 0]) for i in range(8)]
+        b += [('batch_larger', ['case', seed + i, 12, 0, 5, 0]) for i in range(2)]
         b += [('batch_larger', ['corpus', seed, 100000, 0, 0, 10 ** 9, i, 16]) for i in range(16)]
     return b
 
